@@ -24,6 +24,9 @@ hist("C06", "Every sequence of <= 4 (quick) / <= 5 (thorough) operations over a 
 hist("C07", "Getter-heavy generated histories: all exploration getters, len, iteration and all() - database and Measurement-handle versions, every kind of measurement filter and tag_keys selection - are compared with the reference model with and without a valid index on CSV and memory.")
 hist("C10", "Every operation in a generated history is routed at random through the database with a measurement argument, a fresh handle, or a handle captured earlier (before drops/resets); both routes are compared with the model restricted to that measurement and the complete contents (all measurements) after every step.")
 hist("C11", "Generated histories in which ~40% of the operations are made to raise at a generated position (non-Point at position k of insert_multiple, callable failing or returning an invalid value on the j-th selected point, invalid static arguments, bad reads); after each, contents must equal the model before the call, every valid index must equal a rebuild, and the history continues under the ordinary oracle.", technique="fault injection at generated positions inside Hypothesis-generated histories, model-based oracle + index-rebuild oracle", level="fault_enumeration")
+CHECKS["C14"] = dict(category="exploration", technique="exhaustive enumeration of a finite fault battery (entry point x route x slot x wrong value x configuration) + Hypothesis-generated junk values; oracle: call raises ValueError/TypeError, contents unchanged, independent type predicate on everything read back",
+    text="Every combination of entry point (Point construction, the four setters, insert/insert_multiple of non-Points, update/update_all static and via callable, database and Measurement-handle routes), slot, wrongly-typed value and {CSV, memory} x {auto_index on, off} is executed: the call must raise ValueError/TypeError, stored contents must be unchanged and every point read back must pass an independent type predicate; Hypothesis adds recursively generated junk judged by an independent validity predicate. The space of entry points and slots is finite, so enumeration is the right level.",
+    note="The battery of wrong values is finite (about a dozen per slot) and in-place mutation of a Point's dicts is not an API path; falsy update arguments mean 'not given'.", design="3/C14")
 NA = {}
 checks = []
 for p in props:
